@@ -594,14 +594,15 @@ Lemma key_gtb_irrefl : forall a, key_gtb a a = false.
 Proof. intros a. unfold key_gtb. apply iter_gtb_false. apply iter_gt_irrefl. Qed.
 
 (* ---- the modes explored under one propagation ---- *)
-Lemma modes_of_in : forall lib sp br m,
-  In m (modes_of lib sp br) <-> In m lib /\ m_baud m == br /\ fits sp m = true.
+Lemma modes_of_in : forall lib sp it m,
+  In m (modes_of lib sp it) <-> In m lib /\ m_baud m == fst it /\ m_off m == snd it /\ fits sp m = true.
 Proof.
-  intros lib sp br m. unfold modes_of. rewrite sort_modes_eq, isort_in, filter_In, andb_true_iff, Qeq_bool_iff. tauto.
+  intros lib sp it m. unfold modes_of.
+  rewrite sort_modes_eq, isort_in, filter_In, !andb_true_iff, !Qeq_bool_iff. tauto.
 Qed.
 (* sorted by (bit rate, offset), highest first; equal keys keep the library order (insertion is stable) *)
-Lemma modes_of_sorted : forall lib sp br,
-  StronglySorted (fun a b => key_gtb b a = false) (modes_of lib sp br).
+Lemma modes_of_sorted : forall lib sp it,
+  StronglySorted (fun a b => key_gtb b a = false) (modes_of lib sp it).
 Proof.
   intros. unfold modes_of. rewrite sort_modes_eq. apply isort_sorted; [apply key_gtb_asym | apply key_nge_trans].
 Qed.
@@ -663,10 +664,11 @@ Proof.
   - apply in_map_iff. exists m. split; [reflexivity|]. apply filter_In. split; assumption.
   - exists y. split; [|exact Ey]. unfold iters. rewrite sort_iters_eq. apply isort_in. exact Hy.
 Qed.
-Lemma modes_of_nonempty : forall lib sp it, In it (iters lib sp) -> modes_of lib sp (fst it) <> [].
+Lemma modes_of_nonempty : forall lib sp it, In it (iters lib sp) -> modes_of lib sp it <> [].
 Proof.
   intros lib sp it H. destruct (iters_in _ _ _ H) as [m [Hm [Hf ->]]]. cbn.
-  intros E. assert (Hin : In m (modes_of lib sp (m_baud m))) by (apply modes_of_in; split; [assumption | split; [reflexivity | assumption]]).
+  intros E. assert (Hin : In m (modes_of lib sp (m_baud m, m_off m)))
+    by (apply modes_of_in; split; [assumption | split; [reflexivity | split; [reflexivity | assumption]]]).
   rewrite E in Hin. destruct Hin.
 Qed.
 Lemma iters_nil_iff : forall lib sp, iters lib sp = [] <-> forall m, In m lib -> fits sp m = false.
@@ -700,19 +702,19 @@ Proof.
 Qed.
 
 Definition explore_of (lib : list mode) (sp : Q) (its : list iter) : list (iter * mode) :=
-  flat_map (fun it => map (pair it) (modes_of lib sp (fst it))) its.
+  flat_map (fun it => map (pair it) (modes_of lib sp it)) its.
 
 Lemma loop_pure : forall margin P lib sp its lst,
-  (forall it, In it its -> modes_of lib sp (fst it) <> []) -> (its <> [] \/ lst <> None) ->
+  (forall it, In it its -> modes_of lib sp it <> []) -> (its <> [] \/ lst <> None) ->
   loop_st (pure_step P) margin lib sp tt its lst = (first_decisive margin P (explore_of lib sp its) lst, tt).
 Proof.
   intros margin P lib sp. induction its as [|it t IH]; intros lst Hne Hl.
   - cbn. destruct lst as [[i m]|]; [reflexivity|]. destruct Hl as [H|H]; congruence.
   - cbn [loop_st explore_of flat_map pure_step]. fold (explore_of lib sp t).
     rewrite try_modes_spec.
-    destruct (try_modes margin (fun _ => P it) it (modes_of lib sp (fst it))); try reflexivity.
+    destruct (try_modes margin (fun _ => P it) it (modes_of lib sp it)); try reflexivity.
     apply IH; [intros i Hi; apply Hne; now right|].
-    right. destruct (modes_of lib sp (fst it)) eqn:E; [|discriminate].
+    right. destruct (modes_of lib sp it) eqn:E; [|discriminate].
     exfalso. apply (Hne it (or_introl eq_refl)). exact E.
 Qed.
 
@@ -724,6 +726,13 @@ Proof.
   destruct (iters lib sp) as [|it t] eqn:E; [reflexivity|].
   rewrite loop_pure; [reflexivity | | left; discriminate].
   intros i Hi. apply modes_of_nonempty. rewrite E. exact Hi.
+Qed.
+
+Lemma mode_loop_first_decisive_aux : forall margin P lib sp it t,
+  iters lib sp = it :: t ->
+  fst (loop_st (pure_step P) margin lib sp tt (it :: t) None) = first_decisive margin P (explore lib sp) None.
+Proof.
+  intros margin P lib sp it t E. rewrite <- mode_loop_first_decisive. unfold mode_loop, mode_loop_st. now rewrite E.
 Qed.
 
 (* ---- what the first decisive pair is ---- *)
@@ -790,7 +799,8 @@ Qed.
 
 (* membership in the exploration order *)
 Lemma explore_in : forall lib sp it m,
-  In (it, m) (explore lib sp) <-> In it (iters lib sp) /\ In m lib /\ m_baud m == fst it /\ fits sp m = true.
+  In (it, m) (explore lib sp) <->
+  In it (iters lib sp) /\ In m lib /\ m_baud m == fst it /\ m_off m == snd it /\ fits sp m = true.
 Proof.
   intros lib sp it m. unfold explore. rewrite in_flat_map. split.
   - intros [i [Hi Hm]]. apply in_map_iff in Hm. destruct Hm as [x [E Hx]]. inversion E; subst.
@@ -810,18 +820,18 @@ Qed.
 (* structure of a selection inside the nested exploration *)
 Lemma fd_flat_selected : forall margin P lib sp its lst it m,
   first_decisive margin P (explore_of lib sp its) lst = Selected it m ->
-  exists i1 i2 ms1 ms2, its = i1 ++ it :: i2 /\ modes_of lib sp (fst it) = ms1 ++ m :: ms2 /\
-    Forall (fun i => Forall (fun x => eval1 margin P i x = Fail) (modes_of lib sp (fst i))) i1 /\
+  exists i1 i2 ms1 ms2, its = i1 ++ it :: i2 /\ modes_of lib sp it = ms1 ++ m :: ms2 /\
+    Forall (fun i => Forall (fun x => eval1 margin P i x = Fail) (modes_of lib sp i)) i1 /\
     Forall (fun x => eval1 margin P it x = Fail) ms1 /\ eval1 margin P it m = Pass.
 Proof.
   intros margin P lib sp. induction its as [|i t IH]; intros lst it m H.
   - cbn in H. destruct lst as [[? ?]|]; discriminate.
   - cbn [explore_of flat_map] in H. fold (explore_of lib sp t) in H.
-    assert (G : forall ms pre lst0, modes_of lib sp (fst i) = pre ++ ms ->
+    assert (G : forall ms pre lst0, modes_of lib sp i = pre ++ ms ->
               Forall (fun x => eval1 margin P i x = Fail) pre ->
               first_decisive margin P (map (pair i) ms ++ explore_of lib sp t) lst0 = Selected it m ->
-              exists i1 i2 ms1 ms2, i :: t = i1 ++ it :: i2 /\ modes_of lib sp (fst it) = ms1 ++ m :: ms2 /\
-                Forall (fun i => Forall (fun x => eval1 margin P i x = Fail) (modes_of lib sp (fst i))) i1 /\
+              exists i1 i2 ms1 ms2, i :: t = i1 ++ it :: i2 /\ modes_of lib sp it = ms1 ++ m :: ms2 /\
+                Forall (fun i => Forall (fun x => eval1 margin P i x = Fail) (modes_of lib sp i)) i1 /\
                 Forall (fun x => eval1 margin P it x = Fail) ms1 /\ eval1 margin P it m = Pass).
     { induction ms as [|x ms IHm]; intros pre lst0 Epre Fpre Hs.
       - cbn in Hs. destruct (IH _ _ _ Hs) as [i1 [i2 [ms1 [ms2 [-> [E2 [F1 [F2 Pm]]]]]]]].
@@ -831,7 +841,7 @@ Proof.
         + inversion Hs; subst. exists [], t, pre, ms. repeat split; try assumption. constructor.
         + apply (IHm (pre ++ [x]) (Some (i, x))); [now rewrite <- app_assoc | | exact Hs].
           apply Forall_app. split; [exact Fpre | constructor; [exact E | constructor]]. }
-    apply (G (modes_of lib sp (fst i)) [] lst); [reflexivity | constructor | exact H].
+    apply (G (modes_of lib sp i) [] lst); [reflexivity | constructor | exact H].
 Qed.
 
 Lemma sorted_app_after : forall A (R : A -> A -> Prop) l1 x l2,
@@ -847,40 +857,43 @@ Proof.
   rewrite Forall_forall in Hy. apply Hy. apply in_or_app. right. now left.
 Qed.
 
-(* mode_loop_spec, readable form for a selection: the selected mode fits the spacing, belongs to the baud rate of the
-   deciding propagation and clears the threshold STRICTLY; every fitting mode of a higher baud rate was tried under the
-   propagation of its own (baud, offset) and failed; every fitting mode of the same baud rate with a higher
-   (bit rate, offset) key was tried under the same propagation and failed *)
+(* mode_loop_spec, readable form for a selection: the selected mode fits the spacing, was judged on the propagation made
+   with its own baud rate and its own offset, and clears the threshold STRICTLY; every fitting mode with a higher
+   (baud rate, offset) was tried under its own propagation and failed; every fitting mode of the same baud rate and
+   offset with a higher (bit rate, offset) key was tried under the same propagation and failed *)
 Lemma mode_loop_selected : forall margin P lib sp it m,
   mode_loop margin P lib sp = Selected it m ->
-  In m lib /\ fits sp m = true /\ m_baud m == fst it /\ In it (iters lib sp) /\ eval1 margin P it m = Pass /\
-  (forall m', In m' lib -> fits sp m' = true -> fst it < m_baud m' ->
+  In m lib /\ fits sp m = true /\ m_baud m == fst it /\ m_off m == snd it /\ In it (iters lib sp) /\
+  eval1 margin P it m = Pass /\
+  (forall m', In m' lib -> fits sp m' = true -> iter_gt (m_baud m', m_off m') it ->
      exists it', In it' (iters lib sp) /\ iter_eqb (m_baud m', m_off m') it' = true /\ eval1 margin P it' m' = Fail) /\
-  (forall m', In m' lib -> fits sp m' = true -> m_baud m' == fst it -> key_gtb m' m = true ->
+  (forall m', In m' lib -> fits sp m' = true -> m_baud m' == fst it -> m_off m' == snd it -> key_gtb m' m = true ->
      eval1 margin P it m' = Fail).
 Proof.
   intros margin P lib sp it m H. rewrite mode_loop_first_decisive in H. unfold explore in H.
   fold (explore_of lib sp (iters lib sp)) in H.
   destruct (fd_flat_selected _ _ _ _ _ _ _ _ H) as [i1 [i2 [ms1 [ms2 [Ei [Em [F1 [F2 Pm]]]]]]]].
   assert (Hit : In it (iters lib sp)) by (rewrite Ei; apply in_or_app; right; now left).
-  assert (Hm : In m (modes_of lib sp (fst it))) by (rewrite Em; apply in_or_app; right; now left).
-  apply modes_of_in in Hm. destruct Hm as [Hml [Hmb Hmf]].
+  assert (Hm : In m (modes_of lib sp it)) by (rewrite Em; apply in_or_app; right; now left).
+  apply modes_of_in in Hm. destruct Hm as [Hml [Hmb [Hmo Hmf]]].
   repeat split; try assumption.
-  - (* higher baud rate *)
+  - (* higher (baud rate, offset) *)
     intros m' Hl Hf Hb. destruct (iters_repr lib sp m' Hl Hf) as [it' [Hi' Ee]].
     exists it'. repeat split; try assumption.
     apply iter_eqb_iff in Ee. cbn in Ee. destruct Ee as [Eb Eo].
     pose proof (iters_sorted lib sp) as S. rewrite Ei in S, Hi'.
-    assert (Hm' : In m' (modes_of lib sp (fst it'))) by (apply modes_of_in; repeat split; assumption).
+    assert (Hm' : In m' (modes_of lib sp it')) by (apply modes_of_in; repeat split; assumption).
+    assert (G : iter_gt it' it).
+    { unfold iter_gt in *. cbn in Hb. rewrite <- Eb, <- Eo. exact Hb. }
     apply in_app_or in Hi'. destruct Hi' as [Hi'|[<-|Hi']].
     + rewrite Forall_forall in F1. specialize (F1 it' Hi'). rewrite Forall_forall in F1. now apply F1.
-    + exfalso. rewrite <- Eb in Hb. exact (Qlt_irrefl _ Hb).
+    + exfalso. exact (iter_gt_irrefl _ G).
     + exfalso. apply sorted_app_after in S. rewrite Forall_forall in S. specialize (S it' Hi').
-      apply iter_gtb_iff in S. unfold iter_gt in S. rewrite <- Eb in S. lra.
-  - (* same baud rate, higher key *)
-    intros m' Hl Hf Hb Hk.
-    assert (Hm' : In m' (modes_of lib sp (fst it))) by (apply modes_of_in; repeat split; assumption).
-    pose proof (modes_of_sorted lib sp (fst it)) as S. rewrite Em in S, Hm'.
+      apply iter_gtb_iff in S. exact (iter_gt_asym _ _ S G).
+  - (* same propagation, higher key *)
+    intros m' Hl Hf Hb Ho Hk.
+    assert (Hm' : In m' (modes_of lib sp it)) by (apply modes_of_in; repeat split; assumption).
+    pose proof (modes_of_sorted lib sp it) as S. rewrite Em in S, Hm'.
     apply in_app_or in Hm'. destruct Hm' as [Hm'|[<-|Hm']].
     + rewrite Forall_forall in F2. now apply F2.
     + rewrite key_gtb_irrefl in Hk. discriminate.
@@ -953,49 +966,136 @@ Proof.
   - intros [f [x [-> [-> H]]]]. apply met_lt_false_iff in H. now rewrite H.
 Qed.
 
-(* the deciding propagation is the selected mode's own one when the modes of a baud rate share their offset;
-   in general it need not be (a mode can be judged on a propagation made with a sibling's offset) *)
+(* the deciding propagation is the selected mode's own one: same baud rate, same offset *)
 Lemma selected_own_offset : forall margin P lib sp it m,
-  (forall a b, In a lib -> In b lib -> m_baud a == m_baud b -> m_off a == m_off b) ->
   mode_loop margin P lib sp = Selected it m -> iter_eqb it (m_baud m, m_off m) = true.
 Proof.
-  intros margin P lib sp it m U H. destruct (mode_loop_selected _ _ _ _ _ _ H) as [Hl [Hf [Hb [Hi _]]]].
-  destruct (iters_in _ _ _ Hi) as [m0 [H0 [_ ->]]]. cbn in *. apply iter_eqb_iff. cbn.
-  split; [symmetry; exact Hb | apply U; [exact H0 | exact Hl | symmetry; exact Hb]].
+  intros margin P lib sp it m H. destruct (mode_loop_selected _ _ _ _ _ _ H) as [_ [_ [Hb [Ho _]]]].
+  apply iter_eqb_iff. cbn. split; symmetry; assumption.
+Qed.
+(* more generally every explored pair is a mode under its own propagation *)
+Lemma explored_own_offset : forall lib sp it m, In (it, m) (explore lib sp) -> iter_eqb it (m_baud m, m_off m) = true.
+Proof.
+  intros lib sp it m H. apply explore_in in H. destruct H as [_ [_ [Hb [Ho _]]]].
+  apply iter_eqb_iff. cbn. split; symmetry; assumption.
 Qed.
 
 (* ====================================================================================================
    5. the loop with explicit amplifier state
    ==================================================================================================== *)
-(* repaired model (every propagation starts from the designed state): the loop is the specification-level loop fed
-   with the figures of fresh propagations, and it leaves the path as designed *)
-Lemma loop_st_invariant_state : forall S (step : stepper S) (s0 : S) P margin lib sp,
-  (forall it, step s0 it = (s0, P it)) ->
-  forall its lst, loop_st step margin lib sp s0 its lst = (fst (loop_st (pure_step P) margin lib sp tt its lst), s0).
+(* propagations only change the gain an amplifier carries *)
+Definition same_shape1 (d e : elem) : Prop :=
+  match d, e with
+  | Fiber a, Fiber b => a = b
+  | Edfa _ pa na, Edfa _ pb nb => pa = pb /\ na = nb
+  | Roadm a, Roadm b => a = b
+  | Trx, Trx => True
+  | _, _ => False
+  end.
+Definition same_shape (d p : path) : Prop := Forall2 same_shape1 d p.
+Lemma same_shape1_refl : forall e, same_shape1 e e.
+Proof. intros [a|g pm n|t|]; cbn; auto. Qed.
+Lemma same_shape_refl : forall p, same_shape p p.
+Proof. induction p; constructor; [apply same_shape1_refl | assumption]. Qed.
+Lemma elem_step_shape : forall off e sp, same_shape1 e (fst (elem_step off e sp)).
+Proof. intros off [a|g pm n|t|] sp; cbn; auto. Qed.
+Lemma propagate_shape : forall off p sp, same_shape p (fst (propagate_path off p sp)).
 Proof.
-  intros S step s0 P margin lib sp Hs. induction its as [|it t IH]; intros lst.
-  - cbn. destruct lst as [[? ?]|]; reflexivity.
-  - cbn [loop_st]. rewrite Hs. change (pure_step P tt it) with (tt, P it). cbn iota.
-    destruct (try_modes margin (fun _ => P it) it (modes_of lib sp (fst it))); try reflexivity.
-    apply IH.
+  intros off. induction p as [|e t IH]; intros sp; cbn; [constructor|].
+  pose proof (elem_step_shape off e sp) as H1. destruct (elem_step off e sp) as [e' sp'].
+  specialize (IH sp'). destruct (propagate_path off t sp') as [t' sp'']. cbn in *. constructor; assumption.
 Qed.
-Lemma loop_repaired : forall load_of conv margin lib sp designed its lst,
-  loop_st (repaired_step load_of conv) margin lib sp designed its lst =
-  (fst (loop_st (pure_step (fresh_provider designed load_of conv)) margin lib sp tt its lst), designed).
+Lemma run_load_shape : forall p l, same_shape p (fst (run_load p l)).
+Proof. intros p l. apply propagate_shape. Qed.
+Lemma restore1_shape : forall d e, same_shape1 d e -> restore1 d e = d.
 Proof.
-  intros. apply loop_st_invariant_state. intros it. reflexivity.
+  intros [a|g pm n|t|] [b|g' pm' n'|t'|]; cbn; try tauto; try congruence.
+  intros [-> ->]. reflexivity.
 Qed.
-Lemma mode_loop_indep : forall load_of conv margin lib sp designed,
-  mode_loop_st (repaired_step load_of conv) margin lib sp designed =
-  (mode_loop margin (fresh_provider designed load_of conv) lib sp, designed).
+(* writing the designed gains back gives the designed path again, whatever the propagations did in between *)
+Lemma restore_shape : forall d p, same_shape d p -> restore d p = d.
 Proof.
-  intros. unfold mode_loop, mode_loop_st. destruct (iters lib sp); [reflexivity|]. apply loop_repaired.
+  induction d as [|x d IH]; intros p H; inversion H; subst; [reflexivity|].
+  cbn. rewrite restore1_shape by assumption. f_equal. now apply IH.
+Qed.
+Lemma code_step_eq : forall designed load_of conv p it, same_shape designed p ->
+  code_step designed load_of conv p it =
+  (fst (run_load designed (load_of it)), fresh_provider designed load_of conv it).
+Proof.
+  intros designed load_of conv p it H. unfold code_step, fresh_provider. rewrite (restore_shape _ _ H).
+  destruct (run_load designed (load_of it)); reflexivity.
 Qed.
 
-(* the code as it is: figures of the successive propagations on the same path objects *)
+(* the loop of the code: same decision as the specification-level loop on fresh figures; the path handed back is in
+   the state of the LAST propagation made, started from the designed gains (no older clamp survives) *)
+Definition last_run designed (load_of : iter -> load) (p : path) (lst : option (iter * mode)) : Prop :=
+  same_shape designed p /\ forall it m, lst = Some (it, m) -> p = fst (run_load designed (load_of it)).
+Lemma loop_code : forall designed load_of conv margin lib sp its lst p,
+  (forall it, In it its -> modes_of lib sp it <> []) -> last_run designed load_of p lst ->
+  let r := loop_st (code_step designed load_of conv) margin lib sp p its lst in
+  fst r = fst (loop_st (pure_step (fresh_provider designed load_of conv)) margin lib sp tt its lst) /\
+  same_shape designed (snd r) /\
+  (forall it m, fst r = Selected it m \/ fst r = NoFeasibleMode it m -> snd r = fst (run_load designed (load_of it))).
+Proof.
+  intros designed load_of conv margin lib sp. induction its as [|it t IH]; intros lst p Hne [Hs Hl].
+  - cbn. destruct lst as [[i m]|]; cbn.
+    + split; [reflexivity|]. split; [exact Hs|]. intros it m' [E|E]; inversion E; subst. now apply (Hl it m').
+    + split; [reflexivity|]. split; [exact Hs|]. intros it m' [E|E]; discriminate.
+  - cbn [loop_st]. rewrite (code_step_eq _ _ _ _ _ Hs).
+    change (pure_step (fresh_provider designed load_of conv) tt it) with (tt, fresh_provider designed load_of conv it).
+    cbn iota.
+    assert (Hs' : same_shape designed (fst (run_load designed (load_of it)))) by apply run_load_shape.
+    destruct (try_modes margin (fun _ => fresh_provider designed load_of conv it) it (modes_of lib sp it)) eqn:T.
+    + cbn. split; [reflexivity|]. split; [exact Hs'|]. intros i m' [E|E]; inversion E; subst. reflexivity.
+    + cbn. split; [reflexivity|]. split; [exact Hs'|].
+      assert (G : forall ms, try_modes margin (fun _ => fresh_provider designed load_of conv it) it ms = Stop o ->
+                  forall i m', o <> Selected i m' /\ o <> NoFeasibleMode i m').
+      { induction ms as [|x ms IHm]; cbn; [discriminate|].
+        destruct (eval1 margin (fun _ => fresh_provider designed load_of conv it) it x); try discriminate; auto;
+          intros E; inversion E; subst; split; discriminate. }
+      intros i m' [E|E]; destruct (G _ T i m') as [A B]; contradiction.
+    + apply IH; [intros i Hi; apply Hne; now right|]. split; [exact Hs'|].
+      destruct (modes_of lib sp it) eqn:E; [exfalso; apply (Hne it (or_introl eq_refl)); exact E|].
+      intros i m' [= <- _]. reflexivity.
+Qed.
+(* mode_loop_indep: the statement about the code *)
+Lemma mode_loop_indep : forall load_of conv margin lib sp designed,
+  let r := mode_loop_st (code_step designed load_of conv) margin lib sp designed in
+  fst r = mode_loop margin (fresh_provider designed load_of conv) lib sp /\
+  final_state designed load_of (fst r) = Some (snd r) \/
+  (fst r = mode_loop margin (fresh_provider designed load_of conv) lib sp /\ final_state designed load_of (fst r) = None).
+Proof.
+  intros load_of conv margin lib sp designed. unfold mode_loop, mode_loop_st.
+  destruct (iters lib sp) as [|it t] eqn:E; [left; split; reflexivity|].
+  destruct (loop_code designed load_of conv margin lib sp (it :: t) None designed) as [A [B C]].
+  - intros i Hi. apply modes_of_nonempty. rewrite E. exact Hi.
+  - split; [apply same_shape_refl | discriminate].
+  - cbn zeta. destruct (fst (loop_st (code_step designed load_of conv) margin lib sp designed (it :: t) None)) as [i m|i m| | |e] eqn:O.
+    + left. split; [exact A|]. cbn. f_equal. symmetry. apply (C i m). now left.
+    + left. split; [exact A|]. cbn. f_equal. symmetry. apply (C i m). now right.
+    + exfalso. rewrite mode_loop_first_decisive_aux in A by exact E. symmetry in A. apply fd_nobaud in A.
+      unfold explore in A. rewrite E in A. cbn in A. apply app_eq_nil in A. destruct A as [A _]. apply map_eq_nil in A.
+      apply (modes_of_nonempty lib sp it); [rewrite E; now left | exact A].
+    + right. split; [exact A | reflexivity].
+    + right. split; [exact A | reflexivity].
+Qed.
+
+Lemma mode_loop_code : forall load_of conv margin lib sp designed,
+  fst (mode_loop_st (code_step designed load_of conv) margin lib sp designed) =
+    mode_loop margin (fresh_provider designed load_of conv) lib sp /\
+  forall pth, final_state designed load_of (fst (mode_loop_st (code_step designed load_of conv) margin lib sp designed)) = Some pth ->
+    snd (mode_loop_st (code_step designed load_of conv) margin lib sp designed) = pth.
+Proof.
+  intros load_of conv margin lib sp designed.
+  destruct (mode_loop_indep load_of conv margin lib sp designed) as [[A B]|[A B]]; cbn zeta in *.
+  - split; [exact A|]. intros pth H. rewrite B in H. now inversion H.
+  - split; [exact A|]. intros pth H. rewrite B in H. discriminate.
+Qed.
+
+(* the hypothetical loop WITHOUT the restore: figures of the successive propagations on the same path objects *)
 Lemma leaky_head : forall p l t, nth_error (leaky_runs p (l :: t)) 0 = nth_error (fresh_runs p (l :: t)) 0.
 Proof. intros p l t. cbn. destruct (run_load p l). reflexivity. Qed.
-(* guard: as long as no propagation changes the state of the path (no amplifier clamps), sharing is harmless *)
+(* as long as no propagation changes the state of the path (no amplifier clamps) it would be harmless *)
 Lemma leaky_eq_fresh_if_stable : forall p ls,
   (forall l, In l ls -> fst (run_load p l) = p) -> leaky_runs p ls = fresh_runs p ls.
 Proof.
@@ -1066,13 +1166,4 @@ Proof. vm_compute. discriminate. Qed.
 Lemma w_decision_differs :
   fst (mode_loop_st (leaky_step w_load w_conv) 0 w_lib 75 w_path) = NoFeasibleMode (32, 0) (mkM 1 32 0 100 (75 # 2) 400 (mkT [] [] [])) /\
   mode_loop 0 (fresh_provider w_path w_load w_conv) w_lib 75 = Selected (32, 0) (mkM 1 32 0 100 (75 # 2) 400 (mkT [] [] [])).
-Proof. split; vm_compute; reflexivity. Qed.
-
-(* two modes of one baud rate with different offsets: m1 (-2 dB) is selected on the propagation made with +4 dB *)
-Definition w2_lib : list mode :=
-  [mkM 0 32 4 200 (75 # 2) 60 (mkT [] [] []); mkM 1 32 (-2) 100 (75 # 2) 20 (mkT [] [] [])].
-Definition w2_P : provider := fun it _ => Some (mkF [if Qeq_bool (snd it) 4 then 30 else 10] [0] [0] [0]).
-Lemma w2_foreign_offset :
-  mode_loop 0 w2_P w2_lib 50 = Selected (32, 4) (mkM 1 32 (-2) 100 (75 # 2) 20 (mkT [] [] [])) /\
-  eval1 0 w2_P (32, -2) (mkM 1 32 (-2) 100 (75 # 2) 20 (mkT [] [] [])) = Fail.
 Proof. split; vm_compute; reflexivity. Qed.
